@@ -1168,7 +1168,11 @@ class Exec:
             if ck == 'int':
                 c = o.get('_c')
                 if c is None:
-                    c = o['_c'] = mask(int(o['v']), self.T.width(o['t']))
+                    te = self.T.under(o['t'])
+                    if te.get('name') in ('float64', 'float32'):
+                        c = o['_c'] = float(o['v'])    # an integral constant of floating type
+                    else:
+                        c = o['_c'] = mask(int(o['v']), self.T.width(o['t']))
                 return c
             if ck == 'bool':
                 return o['v']
